@@ -201,3 +201,24 @@ Check c07_every_crash_image_outside_known : forall (c : Cfg) (m : mode) (be : ba
   forall t0, exists k, (k <= length (inflight o t0))%nat /\
                        stream (get_ts image t0) = stream (get_ts s t0) ++ firstn k (inflight o t0).
 Print Assumptions c07_every_crash_image_outside_known.
+
+(* ... and in the boolean form: the extracted acceptor the check applies to implementation crash runs
+   accepts every crash image of the model *)
+Theorem c07_every_crash_image_accepted_outside_known : forall (c : Cfg) (m : mode) (be : backend) (ops : list op) (o : op), cfg_ok c ->
+  outside_known (env_of c m be) init ops = true ->
+  N.of_nat (length (offered_all ops)) + N.of_nat (length (offered o)) <= u64_max ->
+  sum_len (offered_all ops) + sum_len (offered o) <= u64_max ->
+  let v := env_of c m be in
+  let s := exec v init ops in
+  forall image, crash_image c v s o image ->
+  forall t0, c07_ok (stream_of s t0) (inflight o t0) (map out_of (stream_of image t0)) = true.
+Proof. exact c07_every_crash_image_accepted. Qed.
+Check c07_every_crash_image_accepted_outside_known : forall (c : Cfg) (m : mode) (be : backend) (ops : list op) (o : op), cfg_ok c ->
+  outside_known (env_of c m be) init ops = true ->
+  N.of_nat (length (offered_all ops)) + N.of_nat (length (offered o)) <= u64_max ->
+  sum_len (offered_all ops) + sum_len (offered o) <= u64_max ->
+  let v := env_of c m be in
+  let s := exec v init ops in
+  forall image, crash_image c v s o image ->
+  forall t0, c07_ok (stream_of s t0) (inflight o t0) (map out_of (stream_of image t0)) = true.
+Print Assumptions c07_every_crash_image_accepted_outside_known.
